@@ -430,6 +430,12 @@ def _aff_as_disjoint(t):
             occupied |= span
             if lo == 0 and (hi == wa or hi - lo + s_ >= w):
                 atom = at
+                if at.op == "ring" and wa + s_ >= w and len(at.aux) <= RING_EXPAND_LIMIT:
+                    # 2^s * (a polynomial mod 2^wa), cut at w <= wa + s: the polynomial itself, scaled (one normal form whether
+                    # the product was built before or after the shift / rotation)
+                    for mono_, co_ in at.aux:
+                        poly[mono_] = (poly.get(mono_, 0) + (co_ << s_)) & mask(w)
+                    continue
             else:
                 atom = trunc(lshr(at, lo), hi - lo) if lo else trunc(at, hi - lo)
                 if atom.op == "const":
